@@ -64,3 +64,110 @@ def attribute_writes(repo: Repo, cls_name: str, attr: str):
 
 def calls_in(func: FuncInfo):
     return [n for n in ast.walk(func.node) if isinstance(n, ast.Call)]
+
+
+# --------------------------------------------------------------------------------------------------
+# def-use expansion: an expression with its temporaries, nested helper functions and lambdas substituted away
+# --------------------------------------------------------------------------------------------------
+class _Subst(ast.NodeTransformer):
+    def __init__(self, mapping):
+        self.mapping = mapping
+
+    def visit_Name(self, node):
+        if isinstance(node.ctx, ast.Load) and node.id in self.mapping:
+            import copy
+            return copy.deepcopy(self.mapping[node.id])
+        return node
+
+
+def _single_defs(func_node):
+    """name -> value expression, for local names bound exactly once by a plain assignment (and never otherwise);
+    nested defs / lambdas with a single return expression are recorded as callables."""
+    count = {}
+    values = {}
+    callables = {}
+    own = set()
+    for n in ast.walk(func_node):
+        if isinstance(n, (ast.FunctionDef, ast.Lambda)) and n is not func_node:
+            for m in ast.walk(n):
+                if m is not n:
+                    own.add(id(m))
+    for n in ast.walk(func_node):
+        if id(n) in own:
+            continue
+        if isinstance(n, ast.Assign):
+            for t in n.targets:
+                if isinstance(t, ast.Name):
+                    count[t.id] = count.get(t.id, 0) + 1
+                    values[t.id] = n.value
+                else:
+                    for x in ast.walk(t):
+                        if isinstance(x, ast.Name) and isinstance(x.ctx, ast.Store):
+                            count[x.id] = count.get(x.id, 0) + 2
+        elif isinstance(n, (ast.AugAssign, ast.AnnAssign)):
+            t = n.target
+            if isinstance(t, ast.Name):
+                count[t.id] = count.get(t.id, 0) + (2 if isinstance(n, ast.AugAssign) else 1)
+                if isinstance(n, ast.AnnAssign) and n.value is not None:
+                    values[t.id] = n.value
+        elif isinstance(n, (ast.For, ast.comprehension)):
+            for x in ast.walk(n.target):
+                if isinstance(x, ast.Name):
+                    count[x.id] = count.get(x.id, 0) + 2
+        elif isinstance(n, (ast.With,)):
+            for it in n.items:
+                if it.optional_vars is not None:
+                    for x in ast.walk(it.optional_vars):
+                        if isinstance(x, ast.Name):
+                            count[x.id] = count.get(x.id, 0) + 2
+        elif isinstance(n, ast.FunctionDef) and n is not func_node:
+            rets = [r for r in ast.walk(n) if isinstance(r, ast.Return)]
+            body = [s for s in n.body if not (isinstance(s, ast.Expr) and isinstance(s.value, ast.Constant))]
+            if len(rets) == 1 and len(body) == 1 and body[0] is rets[0] and rets[0].value is not None:
+                callables[n.name] = ([a.arg for a in n.args.posonlyargs + n.args.args], rets[0].value)
+            count[n.name] = count.get(n.name, 0) + 1
+    for name, v in list(values.items()):
+        if count.get(name) == 1 and isinstance(v, ast.Lambda):
+            callables[name] = ([a.arg for a in v.args.posonlyargs + v.args.args], v.body)
+    single = {k: v for k, v in values.items() if count.get(k) == 1 and not isinstance(v, ast.Lambda)}
+    return single, callables
+
+
+def expand(expr: ast.AST, func_node, depth=8, keep=()) -> ast.AST:
+    """expr with every single-assignment temporary of the function replaced by its definition and every call of a local
+    one-expression helper replaced by that expression (parameters substituted).  Names in keep are left alone."""
+    import copy
+    single, callables = _single_defs(func_node)
+    for k in keep:
+        single.pop(k, None)
+    e = copy.deepcopy(expr)
+    for _ in range(depth):
+        changed = False
+
+        class T(ast.NodeTransformer):
+            def visit_Call(self, node):
+                nonlocal changed
+                self.generic_visit(node)
+                if isinstance(node.func, ast.Name) and node.func.id in callables:
+                    params, body = callables[node.func.id]
+                    m = {}
+                    for p, a in zip(params, node.args):
+                        m[p] = a
+                    for kw in node.keywords:
+                        if kw.arg is not None:
+                            m[kw.arg] = kw.value
+                    if set(params) <= set(m):
+                        changed = True
+                        return _Subst(m).visit(copy.deepcopy(body))
+                return node
+
+            def visit_Name(self, node):
+                nonlocal changed
+                if isinstance(node.ctx, ast.Load) and node.id in single:
+                    changed = True
+                    return copy.deepcopy(single[node.id])
+                return node
+        e = T().visit(e)
+        if not changed:
+            break
+    return ast.fix_missing_locations(e)
